@@ -221,6 +221,24 @@ def check(rep, ctx):
               file=file, line=src_line, instance="aware")
     rep.check(R_T, nonneg, construct=pred.ref, stmt="dt.timestamp() >= 0", message="the predicate does not require a non-negative timestamp",
               file=file, line=src_line, instance="nonneg")
+    # every member of the timestamp type is written exactly (E6 on the writer the table selects)
+    for opt in (False, True):
+        w = I.call(gw, [], {"kafka_type": "datetime_i64", "flexible": False, "optional": opt}, Run(), None)
+        from ..values import UnionV as _U
+        d = export_desc(P.D.writer_desc(w, _U((tz, None)) if opt else tz))
+        q, issues = timeflow.write_side(d.get("conv"), 64, "timestamp") if d.get("k") == "scalar" else (None, [("T-?", "writer not scalar", "")])
+        issues = [i for i in issues if i[0] in ("T-trunc", "T-unit", "T-int", "T-?")]
+        rep.check(R_T, q is not None and not issues, construct=w.ref, stmt=timeflow.show(d.get("conv")),
+                  message="; ".join(f"{r}: {m}" for r, m, _ in issues) or "writer conversion not understood",
+                  file=ctx.sm.require("kio.serial.writers").rel, line=w.node.lineno, instance=f"writer|{opt}")
+    # memoisation inside the value-type machinery must not collapse equal-but-different values
+    from .. import scan
+    R_M = rep.rule("C12-memo", "no membership test or constructor of the value types is memoised on the value", floor=0)
+    for m in scan.memoised_functions(ctx, ["kio.static._phantom", "kio.static.primitive", "kio.static.constants", "kio._utils"]):
+        rep.check(R_M, not m["bad_params"], construct=f"{m['module']}:{m['function']}", stmt=m["stmt"],
+                  message=f"memoised on parameters {m['bad_params']}: 1 == 1.0 == True share one cache entry, so isinstance(1.0, i32) "
+                          f"answers whatever isinstance(1, i32) answered before", file=m["file"], line=m["line"])
+    rep.count(R_M, 1, instance="scan")
     # f64
     f64 = pv.get("f64")
     pr = I.class_lookup(f64, "__predicate__") if isinstance(f64, ClassV) else None
